@@ -276,10 +276,13 @@ Proof.
     pose proof (wf_subst env Henv l Hlit) as Hx.
     destruct (is_absent (subst env l)) eqn:Ea.
     + destruct (subst env l); try discriminate. cbn [erase].
-      destruct d as [[dc dt]|]; [discriminate|]. apply parse_none_absent. exact Hd.
+      destruct d as [[dc dt]|].
+      * apply out_tv_eqb_eq in Hdef. rewrite Hdef. reflexivity.
+      * apply parse_none_absent. exact Hd.
     + assert (E : erase (subst env l) = Some (erase1 (subst env l))).
       { destruct (subst env l); try reflexivity. discriminate. }
-      rewrite E. apply central; assumption.
+      rewrite E. transitivity (parse t (Some (erase1 (subst env l)))); [destruct d as [[dc dt]|]; reflexivity|].
+      apply central; assumption.
   - destruct d as [[dc dt]|].
     + apply out_tv_eqb_eq in Hdef. rewrite Hdef. reflexivity.
     + apply parse_none_absent. exact Hd.
@@ -579,7 +582,9 @@ Proof.
     destruct (args_with (impl_arg vds env) rest args) as [r| | |] eqn:Er; cbn [bindo] in H; try discriminate.
     injection H as <-. cbn [args_typed]. rewrite name_eqb_refl, (IH r Hrest eq_refl). cbn [andb]. rewrite andb_true_r.
     unfold impl_arg in E. destruct (assoc n args) as [l|].
-    + destruct (negb (vars_defined vds l)); [discriminate|]. exact (Hp _ x E).
+    + destruct (negb (vars_defined vds l)); [discriminate|].
+      destruct (erase (subst env l)) as [v|]; destruct d as [[dc dt]|]; try exact (Hp _ x E).
+      injection E as <-. apply out_tv_eqb_eq in Hdef. exact (Hc dc dt Hdef).
     + destruct d as [[dc dt]|]; [|exact (Hp _ x E)].
       injection E as <-. apply out_tv_eqb_eq in Hdef. exact (Hc dc dt Hdef).
 Qed.
@@ -762,12 +767,13 @@ Definition w6b_sig := FCons 10 (ROpt (RVec (ROpt RInt))) None FNil.
 Definition w6b_vds : list vdef := [(11, ROpt (RVec RInt), None)].
 Definition w6b_vars := [(11, XList [XInt 1; XNull])].
 
-Lemma refuted_arg_default :
+(* the former class 1 (fixed in d9e053e): the argument default now applies *)
+Lemma arg_default_fixed :
   wf_case w1_sig w1_args w1_vds [] = true /\ static_ok w1_sig w1_args w1_vds = true /\
-  known_class w1_sig w1_args w1_vds [] = K_ARG_DEFAULT /\
+  known_class w1_sig w1_args w1_vds [] = 0 /\
   spec_request w1_sig w1_args w1_vds [] = Ok [(10, TInt 5%Z)] /\
-  impl_request w1_sig w1_args w1_vds [] true = Err 2 /\
-  impl_request w1_sig w1_args w1_vds [] false = Err 2.
+  impl_request w1_sig w1_args w1_vds [] true = Ok [(10, TInt 5%Z)] /\
+  impl_request w1_sig w1_args w1_vds [] false = Ok [(10, TInt 5%Z)].
 Proof. vm_compute. repeat split; reflexivity. Qed.
 
 Lemma refuted_enum_string :
